@@ -113,6 +113,9 @@ func (e *Engine) staticCall(fr *frame, x *ssa.Call, fn *ssa.Function, args []Val
 		e.contractCall(fr, x, fn, spec, args, st, k)
 		return
 	}
+	if e.externCall(fr, x, key, fn, args, st, k) {
+		return
+	}
 	if len(fn.Blocks) > 0 && fr.depth < e.InlineMax && !e.inlineStackHas(fr, fn) && fn != e.cur.fn {
 		inl := fr.inl
 		if inl != "" {
@@ -823,4 +826,80 @@ func (e *Engine) isPureLeaf(fn *ssa.Function, depth int) bool {
 	}
 	e.pureMemo[fn] = ok
 	return ok
+}
+
+// Standard-library packages whose small helpers are inlined from their Go source like any leaf.
+var inlineStdlib = map[string]bool{"encoding/binary": true, "math": true, "math/bits": true, "unsafe": true, "unicode/utf8": false}
+
+// Side-effect-free standard-library constructors/formatters, modelled as "fresh result, heap untouched"
+// (listed in evidence under trusted_base as extern models).
+var externPure = map[string]string{
+	"errors.New": "nonnil", "fmt.Errorf": "nonnil", "fmt.Sprintf": "val", "fmt.Sprint": "val", "fmt.Sprintln": "val",
+	"strconv.Itoa": "val", "strconv.FormatInt": "val", "strconv.FormatUint": "val", "strconv.FormatFloat": "val", "strconv.Quote": "val",
+	"strconv.FormatBool": "val", "strconv.ParseInt": "val", "strconv.ParseUint": "val", "strconv.ParseFloat": "val", "strconv.ParseBool": "val", "strconv.Atoi": "val",
+	"strings.ToLower": "val", "strings.ToUpper": "val", "strings.TrimSpace": "val", "strings.HasPrefix": "val", "strings.HasSuffix": "val",
+	"strings.Contains": "val", "strings.Index": "val", "strings.EqualFold": "val", "unicode/utf8.ValidString": "val", "unicode/utf8.Valid": "val",
+	"math.IsNaN": "val", "math.IsInf": "val", "reflect.TypeOf": "val", "reflect.ValueOf": "val",
+}
+
+// externCall handles static calls to functions outside the repository that are not inlined.
+func (e *Engine) externCall(fr *frame, x *ssa.Call, key string, fn *ssa.Function, args []Value, st *State, k func(st *State, res Value)) bool {
+	var pkgPath string
+	if fn.Pkg != nil {
+		pkgPath = fn.Pkg.Pkg.Path()
+	} else if fn.Object() != nil && fn.Object().Pkg() != nil {
+		pkgPath = fn.Object().Pkg().Path()
+	}
+	if pkgPath == ModPath || strings.HasPrefix(pkgPath, ModPath+"/") {
+		return false
+	}
+	if inlineStdlib[pkgPath] && len(fn.Blocks) > 0 {
+		return false
+	}
+	c := e.C
+	if kind, ok := externPure[key]; ok {
+		e.noteAbstract("extern model " + key)
+		var res Value
+		if rt := x.Type(); rt != nil {
+			if tp, isT := rt.(*types.Tuple); !isT || tp.Len() > 0 {
+				var as []*Term
+				res = c.Fresh(rt, "ext."+fn.Name(), false, &as)
+				for _, a := range as {
+					st.assume(a)
+				}
+				// results live in memory allocated by the callee
+				res = e.freshenRegions(st, res)
+				if kind == "nonnil" {
+					if iv, isI := res.(Iface); isI {
+						st.assume(c.Ne(iv.Typ, c.Const(TypW, 0)))
+					}
+				}
+			}
+		}
+		k(st, res)
+		return true
+	}
+	e.abstractCall(fr, x, "extern "+ShortKey(key), st, k)
+	return true
+}
+
+// freshenRegions binds the data pointers of strings/slices in v to newly allocated regions (the
+// callee allocated them; their contents are unknown).
+func (e *Engine) freshenRegions(st *State, v Value) Value {
+	c := e.C
+	switch x := v.(type) {
+	case Str:
+		r := e.newRegion()
+		return Str{Ptr{r, c.Const(64, 0)}, x.Len}
+	case Slice:
+		r := e.newRegion()
+		return Slice{Ptr{r, c.Const(64, 0)}, x.Len, x.Cap}
+	case Tuple:
+		out := Tuple{}
+		for _, el := range x.E {
+			out.E = append(out.E, e.freshenRegions(st, el))
+		}
+		return out
+	}
+	return v
 }
